@@ -35,7 +35,9 @@ func NewNode(node int64, min int64) (Node, error) {
 func (n *HardNode) Generate() int64 {
 	n.mu.Lock()
 	defer n.mu.Unlock()
-	var now = _HookNow().UnixNano()/MsDivNs - n.epoch
+	//not via UnixNano: int64 nanoseconds overflow in 2262, the 8-bit node layout lasts until 2299
+	var t = _HookNow()
+	var now = t.Unix()*SDivMs + int64(t.Nanosecond()/MsDivNs) - n.epoch
 
 	if now > n.time {
 		n.step = 0
